@@ -15,6 +15,12 @@
     typed and language-tagged literals whose lexical form has no double
     quote, see the Examples), and [G] read locally has no repeated statement.
 
+    [names_ok c m G] ([C15_names_dom], a boolean the harness evaluates): in the
+    class modes the selector parser's removal of the keyword [SPARQL] changes
+    neither the instantiation property nor a class name, and all_classes_mode
+    lists the classes of the instantiation property (findings C15-F9, C15-F10;
+    both conditions are [true] once the two repairs are in the tree).
+
     [targets c G O pass m]: the target nodes of a pass (instances the class
     selectors returned, LIMIT applied; nodes of the shape-map selectors).
     [touching inv T G] = the statements of [G] with subject in [T] or
@@ -32,7 +38,7 @@ Import ListNotations.
     targets, or -- when [instances_cap] makes the tracker stop early -- a
     prefix of such a list.  In shape-map mode pass 1 reads no triples. *)
 Theorem C15_triples : forall c G O m,
-  ord_ok O -> dom c G -> mode_ok m ->
+  ord_ok O -> dom c G -> mode_ok m -> names_ok c m G ->
   let r := run c m G O in
   r_ok r = true /\
   Permutation (yields (r_p2 r)) (local_graph (touching (c_inverse c) (targets c G O 2 m) G)) /\
@@ -48,7 +54,7 @@ Print Assumptions C15_triples.
 
 (** no statement is delivered twice to the feature pass (finding C15-F2 repaired) *)
 Theorem C15_delivered_once : forall c G O m,
-  ord_ok O -> dom c G -> mode_ok m -> NoDup (yields (r_p2 (run c m G O))).
+  ord_ok O -> dom c G -> mode_ok m -> names_ok c m G -> NoDup (yields (r_p2 (run c m G O))).
 Proof. exact C15a_nodup. Qed.
 Print Assumptions C15_delivered_once.
 
@@ -62,7 +68,7 @@ Print Assumptions C15_targets_are_instances.
 (** (b) [disable_endpoint_cache] does not change what is delivered: equal as
     multisets (as lists it is false: [C15_cache_same_list_refuted]). *)
 Theorem C15_cache_same_result : forall c G O m,
-  ord_ok O -> dom c G -> mode_ok m ->
+  ord_ok O -> dom c G -> mode_ok m -> names_ok c m G ->
   let rc := run (with_cache true c) m G O in
   let rn := run (with_cache false c) m G O in
   Permutation (yields (r_p2 rc)) (yields (r_p2 rn)) /\
@@ -78,7 +84,7 @@ Print Assumptions C15_cache_same_result.
     position of the stop is read off two differently ordered streams); the
     check evaluates the statement on capped runs as well. *)
 Theorem C15_cache_log_partial : forall c G O m,
-  ord_ok O -> dom c G -> mode_ok m -> reads_all c m ->
+  ord_ok O -> dom c G -> mode_ok m -> names_ok c m G -> reads_all c m ->
   let rc := run (with_cache true c) m G O in
   let rn := run (with_cache false c) m G O in
   subseq (log_of rc) (log_of rn) /\
@@ -98,7 +104,7 @@ Print Assumptions C15_cache_log_partial.
     without instance cap, up to the choice among tied candidates); that
     composition is not proved here. *)
 Theorem C15_equals_local_partial : forall c G O m I,
-  ord_ok O -> dom c G -> mode_ok m ->
+  ord_ok O -> dom c G -> mode_ok m -> names_ok c m G ->
   let r := run c m G O in
   let T := targets c G O 2 m in
   (forall id, Profiler.tracked I id = mem_str id T) ->
@@ -177,6 +183,7 @@ Definition cA : cfg := cfg0 true true (-1) (-1).
 
 Example C15_dom_inhabited :
   dom cA G_ex /\ mode_ok (MClasses [ex "C"; ex "D"]) /\
+  names_ok cA (MClasses [ex "C"; ex "D"]) G_ex /\ names_ok cA MAll G_ex /\
   List.length (yields (r_p2 (run cA (MClasses [ex "C"; ex "D"]) G_ex id_oracles))) = 9 /\
   List.length (log_of (run cA MAll G_ex id_oracles)) = 12 /\
   List.length (log_of (run (cfg0 false true (-1) (-1)) MAll G_ex id_oracles)) = 18.
@@ -184,6 +191,22 @@ Proof.
   split; [split; [vm_compute; reflexivity | unfold local_graph; nodup_compute]|].
   split; [exact I|]. repeat split; vm_compute; reflexivity.
 Qed.
+
+(** [dom] as a boolean the harness can evaluate ([nodup_b]: no two statements
+    of the local reading are equal) *)
+Theorem C15_dom_boolean : forall c G,
+  C15_dom (c_allow_num c) (c_tau c) G && nodup_b (local_graph G) = true -> dom c G.
+Proof.
+  intros c G H. apply andb_true_iff in H. destruct H as [H1 H2]. split; [exact H1 | apply nodup_b_ok; exact H2].
+Qed.
+Print Assumptions C15_dom_boolean.
+
+(** the cache statement (b): "with the cache ON the result is the same", said
+    in full for the model; its domain: [dom] asks [NoDup (local_graph G)] -- no
+    two served statements are read alike locally -- and [C15_dom] that every
+    literal is read by the endpoint path as it is locally.  Outside it the
+    statement is false today: see [C15_cache_merges_lang_refuted] and
+    [C15_cache_merges_quote_refuted] below. *)
 
 Ltac in_compute := apply in_triple_b; vm_compute; reflexivity.
 Ltac not_in_compute := apply notin_triple_b; vm_compute; reflexivity.
@@ -307,3 +330,175 @@ Proof.
          id_oracles, (MClasses [ex "C"]).
   split; [apply id_oracles_ok|]. split; [vm_compute; reflexivity|]. split; [in_compute | vm_compute; reflexivity].
 Qed.
+
+(** C15-F7.  The local graph of the cache is built from the model [Literal],
+    which keeps no language tag: two literals of one (subject, predicate) that
+    differ only in their tag ("chat"@en, "chat"@fr) become one node of the
+    rdflib graph, and with the cache ON one statement is delivered where the
+    endpoint serves two ({1} for {2} in the shape).  Every statement is in
+    [C15_dom] and the served graph is a set; what [dom] excludes is that the
+    two are read alike locally ([NoDup (local_graph G)] fails). *)
+Definition lang_lit (s l : string) : sterm := SLit (Str s) None (Some (Str l)).
+Definition G_lang : sgraph := [ty "a" "C"; st "a" "name" (lang_lit "chat" "en"); st "a" "name" (lang_lit "chat" "fr")].
+Definition cC : cfg := cfg0 true false (-1) (-1).
+
+Ltac nodup_served :=
+  repeat (constructor; [cbn; intros H; repeat (destruct H as [H|H]; [vm_compute in H; discriminate H|]); exact H|]);
+  constructor.
+
+Lemma C15_cache_merges_lang_refuted :
+  lsg_token_literal = false ->
+  exists c G O m, ord_ok O /\ C15_dom (c_allow_num c) (c_tau c) G = true /\ NoDup G /\ mode_ok m /\ names_ok c m G /\
+    ~ NoDup (local_graph G) /\
+    List.length (yields (r_p2 (run (with_cache true c) m G O))) = 2 /\
+    List.length (yields (r_p2 (run (with_cache false c) m G O))) = 3 /\
+    ~ Permutation (yields (r_p2 (run (with_cache true c) m G O))) (yields (r_p2 (run (with_cache false c) m G O))).
+Proof.
+  intros E.
+  first [ vm_compute in E; discriminate E     (* the cache keeps the language tag: nothing to refute *)
+        | exists cC, G_lang, id_oracles, (MClasses [ex "C"]);
+          split; [apply id_oracles_ok|]; split; [vm_compute; reflexivity|]; split; [unfold G_lang; nodup_served|];
+          split; [exact I|]; split; [vm_compute; reflexivity|];
+          split; [apply nodup_b_false; vm_compute; reflexivity|];
+          split; [vm_compute; reflexivity|]; split; [vm_compute; reflexivity|];
+          intros P; apply Permutation_length in P; vm_compute in P; discriminate P ].
+Qed.
+
+(** the same input once the cache stores the literal of the token (flag
+    [lsg_token_literal], notes/proposed_fixes/C15-cache-keeps-literal.diff) *)
+Example C15_cache_keeps_lang_fixed :
+  lsg_token_literal = true ->
+  yields (r_p2 (run (with_cache true cC) (MClasses [ex "C"]) G_lang id_oracles)) =
+  yields (r_p2 (run (with_cache false cC) (MClasses [ex "C"]) G_lang id_oracles)) /\
+  List.length (yields (r_p2 (run (with_cache true cC) (MClasses [ex "C"]) G_lang id_oracles))) = 3.
+Proof.
+  intros E. first [ vm_compute in E; discriminate E | split; vm_compute; reflexivity ].
+Qed.
+
+(** C15-F8.  [parse_literal] cuts the content of a quoted token at the first
+    inner quote; the cache stores that cut content, so two string literals
+    that share the text before an embedded quote ("x "a"", "x "b"") become one
+    node: again {1} with the cache, {2} without.  (Such literals are outside
+    [C15_dom]: the local reader cuts them elsewhere; the local graph has no
+    repetition here.) *)
+Definition G_quote : sgraph :=
+  [ty "a" "C"; st "a" "n" (plain_lit "x ""a"""); st "a" "n" (plain_lit "x ""b""")].
+
+Lemma C15_cache_merges_quote_refuted :
+  lsg_token_literal = false ->
+  exists c G O m, ord_ok O /\ NoDup (local_graph G) /\ mode_ok m /\ names_ok c m G /\
+    C15_dom (c_allow_num c) (c_tau c) G = false /\
+    List.length (yields (r_p2 (run (with_cache true c) m G O))) = 2 /\
+    List.length (yields (r_p2 (run (with_cache false c) m G O))) = 3 /\
+    ~ Permutation (yields (r_p2 (run (with_cache true c) m G O))) (yields (r_p2 (run (with_cache false c) m G O))).
+Proof.
+  intros E.
+  first [ vm_compute in E; discriminate E
+        | exists cC, G_quote, id_oracles, (MClasses [ex "C"]);
+          split; [apply id_oracles_ok|]; split; [unfold local_graph; nodup_compute|];
+          split; [exact I|]; split; [vm_compute; reflexivity|]; split; [vm_compute; reflexivity|];
+          split; [vm_compute; reflexivity|]; split; [vm_compute; reflexivity|];
+          intros P; apply Permutation_length in P; vm_compute in P; discriminate P ].
+Qed.
+
+Example C15_cache_keeps_quote_fixed :
+  lsg_token_literal = true ->
+  yields (r_p2 (run (with_cache true cC) (MClasses [ex "C"]) G_quote id_oracles)) =
+  yields (r_p2 (run (with_cache false cC) (MClasses [ex "C"]) G_quote id_oracles)) /\
+  List.length (yields (r_p2 (run (with_cache true cC) (MClasses [ex "C"]) G_quote id_oracles))) = 3.
+Proof.
+  intros E. first [ vm_compute in E; discriminate E | split; vm_compute; reflexivity ].
+Qed.
+
+(** C15-F9.  all_classes_mode with an instantiation property other than
+    rdf:type: [produce_shape_map_according_to_input] asks the endpoint for the
+    classes with [yield_classes_with_instances()] -- no argument, so for the
+    classes of rdf:type.  Here there is none: no selector, no target, nothing
+    delivered, while [a] is an instance of [C] for the property given. *)
+Definition cIsA : cfg :=
+  {| c_tau := ex "isA"; c_cache := true; c_inverse := false;
+     c_allow_num := dflt_infer_numeric_types_for_untyped_literals;
+     c_last_level := dflt15_track_classes_for_entities_at_last_depth_level;
+     c_limit := (-1)%Z; c_cap := (-1)%Z |}.
+Definition G_isA : sgraph := [st "a" "isA" (iri "C"); st "a" "p" (iri "b")].
+
+Lemma C15_all_classes_tau_refuted :
+  all_classes_passes_tau = false ->
+  exists c G O, ord_ok O /\ dom c G /\ C15_names_dom c MAll G = false /\
+    targets c G O 2 MAll = [ex "a"] /\
+    r_ok (run c MAll G O) = true /\ yields (r_p2 (run c MAll G O)) = [] /\
+    log_of (run c MAll G O) = [(QClasses, rdf_type); (QClasses, rdf_type)] /\
+    ~ Permutation (yields (r_p2 (run c MAll G O))) (local_graph (touching (c_inverse c) (targets c G O 2 MAll) G)).
+Proof.
+  intros E.
+  first [ vm_compute in E; discriminate E
+        | exists cIsA, G_isA, id_oracles;
+          split; [apply id_oracles_ok|];
+          split; [split; [vm_compute; reflexivity | unfold local_graph; nodup_compute]|];
+          split; [vm_compute; reflexivity|]; split; [vm_compute; reflexivity|];
+          split; [vm_compute; reflexivity|]; split; [vm_compute; reflexivity|]; split; [vm_compute; reflexivity|];
+          intros P; apply Permutation_length in P; vm_compute in P; discriminate P ].
+Qed.
+
+Example C15_all_classes_tau_fixed :
+  all_classes_passes_tau = true ->
+  names_ok cIsA MAll G_isA /\ yields (r_p2 (run cIsA MAll G_isA id_oracles)) = local_graph G_isA.
+Proof.
+  intros E. first [ vm_compute in E; discriminate E | split; vm_compute; reflexivity ].
+Qed.
+
+(** C15-F10.  The selector of a target class is handed to the selector parser
+    as [SPARQL "select ?s where { ?s <tau> <class> ... }"]; the parser removes
+    EVERY occurrence of the keyword, also inside the class IRI (or the
+    instantiation property): class [http://ex.org/SPARQLThing] is asked for as
+    [http://ex.org/Thing], which has no instance. *)
+Definition G_kw : sgraph := [ty "a" "SPARQLThing"; st "a" "p" (iri "b")].
+
+Lemma C15_sparql_in_class_refuted :
+  c_sel_sparql_strip_once = false ->
+  exists c G O m, ord_ok O /\ dom c G /\ mode_ok m /\ C15_names_dom c m G = false /\
+    targets c G O 2 m = [ex "a"] /\
+    r_ok (run c m G O) = true /\ yields (r_p2 (run c m G O)) = [] /\
+    log_of (run c m G O) = [(QSel, ex "Thing"); (QSel, ex "Thing")] /\
+    ~ Permutation (yields (r_p2 (run c m G O))) (local_graph (touching (c_inverse c) (targets c G O 2 m) G)).
+Proof.
+  intros E.
+  first [ vm_compute in E; discriminate E
+        | exists cC, G_kw, id_oracles, (MClasses [ex "SPARQLThing"]);
+          split; [apply id_oracles_ok|];
+          split; [split; [vm_compute; reflexivity | unfold local_graph; nodup_compute]|];
+          split; [exact I|];
+          split; [vm_compute; reflexivity|]; split; [vm_compute; reflexivity|];
+          split; [vm_compute; reflexivity|]; split; [vm_compute; reflexivity|]; split; [vm_compute; reflexivity|];
+          intros P; apply Permutation_length in P; vm_compute in P; discriminate P ].
+Qed.
+
+Example C15_sparql_in_class_fixed :
+  c_sel_sparql_strip_once = true ->
+  names_ok cC (MClasses [ex "SPARQLThing"]) G_kw /\
+  yields (r_p2 (run cC (MClasses [ex "SPARQLThing"]) G_kw id_oracles)) = local_graph G_kw.
+Proof.
+  intros E. first [ vm_compute in E; discriminate E | split; vm_compute; reflexivity ].
+Qed.
+
+(** what [names_ok] asks, spelled out *)
+Theorem C15_names_domain : forall c m G,
+  C15_names_dom c m G =
+  match m with
+  | MClasses cl => kw_unchanged (c_tau c) && forallb kw_unchanged cl
+  | MAll => kw_unchanged (c_tau c) && str_eqb (tau_all c) (c_tau c) &&
+            forallb (fun t => negb (str_eqb (sp t) (rc_false (c_tau c))) || kw_unchanged (value_of_term (so t))) G
+  | MShapeMap _ => true
+  end.
+Proof. reflexivity. Qed.
+Print Assumptions C15_names_domain.
+
+Theorem C15_names_no_root_cause :
+  c_sel_sparql_strip_once = true -> all_classes_passes_tau = true -> forall c m G, names_ok c m G.
+Proof.
+  intros E1 E2 c m G. unfold names_ok, C15_names_dom, kw_unchanged, kw_strip, tau_all. rewrite E1, E2.
+  destruct m; rewrite ?str_eqb_refl; cbn [andb]; try reflexivity.
+  - induction l as [|x l IH]; cbn; [reflexivity|]. rewrite str_eqb_refl. exact IH.
+  - induction G as [|t G IH]; cbn; [reflexivity|]. rewrite str_eqb_refl, orb_true_r. exact IH.
+Qed.
+Print Assumptions C15_names_no_root_cause.
